@@ -957,7 +957,16 @@ def _own_nodes(fn):
 
 
 # ---------------------------------------------------------------------- the grid
+THOROUGH = [False]
+
+
 def nesting_grid(wrapped=False):
+    if THOROUGH[0] and not wrapped:
+        return all_nestings()
+    return _nesting_grid(wrapped)
+
+
+def _nesting_grid(wrapped=False):
     """Nested shapes (lists = Chain, strings = members): every way a nested Chain can sit first / in the middle / last,
     two levels deep, next to each other, alone, and empty-free.  `wrapped`: some members are AbstractUnwrappable."""
     shapes = [
@@ -967,6 +976,37 @@ def nesting_grid(wrapped=False):
     ]
     if wrapped:
         shapes = [["a", "W:b"], [["a", "W:b"], "c"], ["W:a", ["b", "W:c"], "d"], [["W:a", ["W:b", "c"]], "W:d"]]
+    return shapes
+
+
+def all_nestings(max_leaves=5, max_depth=3):
+    """Every nesting shape with 1..max_leaves members and nesting depth <= max_depth (a Chain may hold a single member
+    or a single Chain): the thorough tier's grid."""
+    import functools
+    import string
+
+    @functools.lru_cache(maxsize=None)
+    def forests(n, depth):
+        """all sequences of items (member or nested chain) holding n members in total"""
+        if n == 0:
+            return [()]
+        out = []
+        for first in range(1, n + 1):
+            heads = [("L",)] if first == 1 else []
+            if depth > 1:
+                heads += [("C", f) for f in forests(first, depth - 1) if f]
+            for h in heads:
+                for rest in forests(n - first, depth):
+                    out.append((h,) + rest)
+        return out
+    shapes = []
+    for n in range(1, max_leaves + 1):
+        for f in forests(n, max_depth):
+            names = iter(string.ascii_lowercase)
+
+            def mk(items):
+                return [next(names) if it[0] == "L" else mk(it[1]) for it in items]
+            shapes.append(mk(f))
     return shapes
 
 
